@@ -10,7 +10,7 @@ import (
 func init() { registry["C05"] = checkC05 }
 
 func checkC05(c *Check) {
-	c.Explanation = "Pairing of market/deployment records with escrow records, decided per function on all nil-error paths and for all call sites: (R1) bid created <=> bid-deposit account opened for that bid's id by the provider; bid closed/lost => the same bid's account closed; lease created only after its payment stream was opened for (deployment account, lease payment id) of the same bid; every lease close outside the escrow hooks is paired with PaymentClose of ids derived from that lease; deployments are closed only from the escrow account-closed hook and MsgCloseDeployment passes through AccountClose of the deployment's account; deployment created <=> deployment account opened; hooks are registered in the app; (R2) id mapping is shape-bijective: scope constants agree between mapping and inverse, the payment id's field order agrees with its parser, integer parse widths are not narrower than the id fields they fill; (R3) dropped escrow errors are listed (informational)."
+	c.Explanation = "Pairing of market/deployment records with escrow records, decided per function on all nil-error paths and for all call sites: (R1) bid created <=> bid-deposit account opened for that bid's id by the provider; bid closed/lost => the same bid's account closed; lease created only after its payment stream was opened for (deployment account, lease payment id) of the same bid; every lease close outside the escrow hooks is paired with PaymentClose of ids derived from that lease; deployments are closed only from the escrow account-closed hook and MsgCloseDeployment passes through AccountClose of the deployment's account; deployment created <=> deployment account opened; hooks are registered in the app; (R2) id mapping is shape-bijective: scope constants agree between mapping and inverse, the payment id's field order agrees with its parser, integer parse widths are not narrower than the id fields they fill; (R3) dropped escrow errors are listed (informational); (R4) closing cascades are complete: the settle core hands every open payment to its caller and the account-closed hook closes an active deployment on every path (shared with C03-R2 / C04-R2)."
 	c.NotDecided = "the iff over all histories (needs the global invariant); the escrow-side half (a close that silently does not persist) is C03"
 	l := c.L
 
@@ -249,6 +249,19 @@ func checkC05(c *Check) {
 	}
 	c.Floor("R1", 30)
 
+	// ---- R4 closing cascades reach every record (shared rules): the settle core hands all open payments to
+	// AccountClose (C03-R2), and the account-closed hook closes the deployment on every path on which it is active
+	// (C04-R2) — otherwise escrow says closed while the payment / deployment record says open
+	c.settleHandsOnPayments("R4", l.settleCore())
+	{
+		fn := l.Func("x/market/hooks", "hooks", "OnEscrowAccountClosed")
+		c.Analysed(fnName(fn))
+		dact, _ := constantInt2(l, "x/deployment/types", "DeploymentActive")
+		active := func(f []Atom) bool { return hasStateFact(f, "eq", "GetDeployment(", dact) }
+		c.requireWhen("R4", "account-closed hook: deployment -> closed", fn, active, func(x ssa.CallInstruction) bool { return callIs(x, "CloseDeployment", "", "types.Deployment") }, "deployment stays active although its escrow account is closed")
+	}
+	c.Floor("R4", 5)
+
 	// ---- R2 id mapping shape
 	c.idMapping()
 
@@ -339,6 +352,37 @@ func (c *Check) idMapping() {
 	want := "types.MakeLeaseID(types.MakeBidID(types.MakeOrderID(types.MakeGroupID(types.DeploymentIDFromEscrowAccount(p:id)#0, conv:uint32(strconv.ParseUint(" + split + "[0], 10, 32)#0)), conv:uint32(strconv.ParseUint(" + split + "[1], 10, 32)#0)), types.AccAddressFromBech32(" + split + "[2])#0))"
 	c.Ob("R2", "lease inverse reads gseq, oseq, provider from parts 0,1,2 on the deployment of the account", inv.Pos(), strings.ReplaceAll(is, "*", "") == want, is)
 
+	c.parseWidthRule("R2")
+}
+
+
+func intWidth(t types.Type) int64 {
+	b, ok := t.Underlying().(*types.Basic)
+	if !ok {
+		return 0
+	}
+	switch b.Kind() {
+	case types.Uint64, types.Int64, types.Uint, types.Int:
+		return 64
+	case types.Uint32, types.Int32:
+		return 32
+	case types.Uint16, types.Int16:
+		return 16
+	case types.Uint8, types.Int8:
+		return 8
+	}
+	return 0
+}
+
+func (l *Loaded) constValAny(rel, name string) string {
+	return l.constVal(rel, name).ExactString()
+}
+
+// parseWidthRule: every strconv.ParseUint/ParseInt in the chain modules and sdkutil accepts the whole range of the id /
+// sequence field its result is converted into (bit size, and signedness: a signed parse into an unsigned field loses
+// the upper half). Shared: C05-R2 (escrow-id inverse mappings), C16-R1 (event attribute decoders).
+func (c *Check) parseWidthRule(rule string) {
+	l := c.L
 	// integer parse widths
 	n := 0
 	for _, fn := range l.prodFuncs() {
@@ -361,6 +405,7 @@ func (c *Check) idMapping() {
 			n++
 			// destination widths
 			minDest := int64(0)
+			destUnsigned := false
 			cv := call.Value()
 			var walk func(v ssa.Value)
 			walk = func(v ssa.Value) {
@@ -377,6 +422,9 @@ func (c *Check) idMapping() {
 						if w := intWidth(x.Type()); w > minDest {
 							minDest = w
 						}
+						if bt, isB := x.Type().Underlying().(*types.Basic); isB && bt.Info()&types.IsUnsigned != 0 {
+							destUnsigned = true
+						}
 					case *ssa.Store, *ssa.Return, *ssa.Call, *ssa.Phi, *ssa.MakeInterface:
 						if _, isT := v.Type().(*types.Tuple); !isT {
 							if w := intWidth(v.Type()); w > minDest {
@@ -387,32 +435,13 @@ func (c *Check) idMapping() {
 				}
 			}
 			walk(cv)
-			c.Ob("R2", "integer parse width in "+fnName(fn)+" ("+Sym(call.Common().Args[0])+") covers the field it fills", call.Pos(), minDest == 0 || bits >= minDest, "parses "+itoa(int(bits))+" bits into a "+itoa(int(minDest))+"-bit id field: larger ids are rejected by the inverse mapping (hooks then silently skip)")
+			if full == "strconv.ParseInt" && destUnsigned {
+				bits-- // a signed parse fills an unsigned field: the upper half of its range is rejected
+			}
+			c.Ob(rule, "integer parse width in "+fnName(fn)+" ("+Sym(call.Common().Args[0])+") covers the field it fills", call.Pos(), minDest == 0 || bits >= minDest, "parses "+itoa(int(bits))+" bits into a "+itoa(int(minDest))+"-bit id field: larger ids are rejected by the inverse mapping (hooks then silently skip)")
 		}
 	}
 	if n < 3 {
-		c.Fail("C05-R2 parse width lost instances")
+		c.Fail("%s-%s parse width lost instances", c.ID, rule)
 	}
-}
-
-func intWidth(t types.Type) int64 {
-	b, ok := t.Underlying().(*types.Basic)
-	if !ok {
-		return 0
-	}
-	switch b.Kind() {
-	case types.Uint64, types.Int64, types.Uint, types.Int:
-		return 64
-	case types.Uint32, types.Int32:
-		return 32
-	case types.Uint16, types.Int16:
-		return 16
-	case types.Uint8, types.Int8:
-		return 8
-	}
-	return 0
-}
-
-func (l *Loaded) constValAny(rel, name string) string {
-	return l.constVal(rel, name).ExactString()
 }
